@@ -5,8 +5,8 @@ PROP = {
     "gens": ["gen_api.py"],
     "rule": "Engine 1: every public function, operator and trait impl of the float vector, quaternion, matrix, affine and mask types (API table generated from the working tree) is called under catch_unwind with every argument drawn from the degenerate-value lattice; non-trivial = some consumed argument word is zero/subnormal/tiny/huge/inf/NaN, distinct by (call id, argument bits). Engine 2: slice functions over all lengths 0..N+4 and index functions over 0..N+2 and usize::MAX, enumerated completely. Engine 3: the same under AddressSanitizer with exact-size heap buffers.",
     "builds": {
-        "quick": [B("stable"), B("chk", 0.5), B("nightly", 0.25, False), B("asan", 0.1, False)],
-        "thorough": [B("stable"), B("chk", 0.5), B("nightly", 0.5, False), B("asan", 0.2, False)],
+        "quick": [B("stable"), B("fma", 0.25), B("chk", 0.5), B("nightly", 0.25, False), B("asan", 0.1, False), B("asan0", 0.01, False)],
+        "thorough": [B("stable"), B("fma", 0.5), B("chk", 0.5), B("nightly", 0.5, False), B("asan", 0.2, False), B("asan0", 0.03, False)],
     },
     "fuzz": {"target": "c18_calls", "runs": {"thorough": 3000000}},
     "crash_is_violation": True,
